@@ -55,11 +55,12 @@ def project_section(sec):
     }
 
 
-def observe_text(text):
-    """Load text with the schema-less loader; returns the abstract outcome."""
+def observe_text(text, env=None):
+    """Load text with the schema-less loader; returns the abstract outcome.  Every name the text could refer to
+    is taken out of the environment for the duration of the call, except those given in env."""
     import ZConfig
     from ZConfig import schemaless
-    with EnvPatch(candidates(text, full=False), {}):
+    with EnvPatch(candidates(text, full=False), env or {}):
         try:
             top = schemaless.loadConfigFile(io.StringIO(text))
         except ZConfig.SubstitutionSyntaxError:
